@@ -172,6 +172,24 @@ kf("C09", "C09-const-array-element-store", "`out[0] = positions[1]` with positio
    ["C09|store-type|*|corpus/mesh-shader"])
 kf("C09", "C09-cmpxchg-result-member-emit", "members of the atomicCompareExchangeWeak result used in a later statement are not covered by a dominating Emit",
    ["C09|emit-dominates|*|atomics_workgroup_barriers"])
+# F9 (statement-lowered builtins x compaction triggers; keys end in F9/<class>/<builtin>/<mode>[+<second builtin>], F9lite programs in their full signature)
+kf("C09", "C09-atomicstore-operands-emitted-late", "`atomicStore(&sa.arr[i], v)` / `atomicStore(&wa, r + 1i)`: the Store that atomicStore lowers to precedes the Emit of its own pointer access chain / value expression (operands written inline, or a pointer that needs an access chain): used before emitted",
+   ["C09|emit-dominates|*ir.StmtStore uses e# (ir.Expr*) where it is not available*|F9/atomic/atomicStore/*", "C09|emit-dominates|*ir.StmtStore uses e# (ir.Expr*) where it is not available*|F9/*+atomicStore",
+    "C09|emit-dominates|*ir.StmtStore uses e# (ir.Expr*) where it is not available*|F9/atomicStore/*"])
+kf("C09", "C09-imageatomic-operands-emitted-late", "`textureAtomicAdd(t, vec2<u32>(lid, 0u), lid + 1u)`: the ImageAtomic statement precedes the Emit of its inline coordinate / value expressions",
+   ["C09|emit-dominates|*ir.StmtImageAtomic uses e# (ir.Expr*) where it is not available*|F9/texatomic/*", "C09|emit-dominates|*ir.StmtImageAtomic uses e# (ir.Expr*) where it is not available*|F9/*+textureAtomic*"])
+kf("C09", "C09-rayquery-generate-operand-emitted-late", "`rayQueryGenerateIntersection(&rq, f32(lid) * 0.5)`: the RayQuery statement precedes the Emit of its inline hit distance",
+   ["C09|emit-dominates|*ir.StmtRayQuery uses e# (ir.Expr*) where it is not available*|F9/rayquery/rayQueryGenerateIntersection/*", "C09|emit-dominates|*ir.StmtRayQuery uses e# (ir.Expr*) where it is not available*|F9/*+rayQueryGenerateIntersection"])
+kf("C09", "C09-special-type-not-remapped", "`let t = vec4<u32>(1u,2u,3u,4u).zw;` in a function that uses rayQueryGetCandidateIntersection: the type compaction run by lowering drops vec4<u32> but leaves SpecialTypes.RayIntersection (and so the type of every RayQueryGetIntersection) at its old, now out-of-range handle",
+   ["C09|handle-range|special type handle # out of range|F9/*", "C09|expr-operand|*(ir.ExprRayQueryGetIntersection): type handle # out of range|F9/*"])
+kf("C09", "C09-as-of-bool-result-empty-resolution", "`u32(subgroupAll(c))`, `u32(subgroupAny(c))`, `u32(workgroupUniformLoad(&wb))` with wb: bool: the As conversion of a bool statement result is recorded with an empty TypeResolution",
+   ["C09|expr-type|*(ir.ExprAs): recorded type unusable: empty type resolution (inferred u#)|F9/*"])
+kf("C09", "C09-wgul-result-index-empty-resolution", "`workgroupUniformLoad(&warr)[lid & 3u]` (dynamic index into the array a workgroupUniformLoad yields): the Access is recorded with an empty TypeResolution",
+   ["C09|expr-type|*(ir.ExprAccess): recorded type unusable: empty type resolution*|F9/wgul/*", "C09|expr-type|*(ir.ExprAccess): recorded type unusable: empty type resolution*|F9/*+workgroupUniformLoad", "C09|expr-type|*(ir.ExprAccess): recorded type unusable: empty type resolution*|F9/workgroupUniformLoad/*"])
+kf("C09", "C09-wgul-atomic-result-type", "`workgroupUniformLoad(&wat)` with wat: atomic<u32> records atomic<u32> as the type of its result; WGSL defines the result as u32",
+   ["C09|expr-type|*(ir.ExprWorkGroupUniformLoadResult): recorded ##:atomic<u#>, inferred u#|F9/*"])
+kf("C09", "C09-reordertypes-not-idempotent", "ir.ReorderTypes applied twice to the lowered module of `out[lid] = u32(subgroupAny(lid > 1u));` next to a vec4<u32> constructor gives a different type order than applied once (two types keep swapping places)",
+   ["C09|pass-not-idempotent|ReorderTypes|F9/collective/subgroupA*"])
 
 kf("C09", "C09-alias-scalar-duplicate-type", "`alias AI = i32;` adds a second i32 entry to the type arena: a variable or member declared with the alias has a different type handle than the i32 values stored to it (`alias AI = i32; var<private> g: AI = 1; ... g = g + 1;` stores #2:i32 through ptr<#4:i32>), so the module is not deduplicated",
    ["C09|store-type|*|F8o/alias-chain/*", "C09|store-type|*|F8o/struct-nest/*", "C09|store-type|*|F8o/var-init/*"])
